@@ -302,7 +302,14 @@ static void write_crash(const char* kind, const char* extra) {
     static volatile sig_atomic_t partial_done;
     if (!partial_done && !final_written) { partial_done = 1; alarm(20); write_result(false, pv_cur.section, pv_cur.idx); }
 }
+const char* pv_last_api;                  /* relaxed atomic: the library call most recently begun on any thread and not yet finished (diagnostic only) */
+const char* (*pv_hang_probe)(void);       /* multi-threaded drivers: which library call some worker thread is stuck in (the alarm lands on any thread) */
 static void on_signal(int sig) {
+    if (sig == SIGALRM && pv_cur.api == NULL) {
+        const char* a = pv_hang_probe ? pv_hang_probe() : NULL;
+        if (!a) a = __atomic_load_n(&pv_last_api, __ATOMIC_RELAXED);         /* a call begun on another thread (C16 trampolines, C04/C14 worker threads) and not finished */
+        if (a) pv_cur.api = a;
+    }
     const char* k = sig == SIGSEGV ? "SIGSEGV" : sig == SIGABRT ? "SIGABRT" : sig == SIGBUS ? "SIGBUS" : sig == SIGFPE ? "SIGFPE" :
                     sig == SIGILL ? "SIGILL" : sig == SIGALRM ? "HANG" : "SIGNAL";
     if (sig == SIGALRM && crash_written) _exit(4);     /* stuck while saving partial results after a crash */
@@ -335,6 +342,11 @@ uint64_t pv_scaled(uint64_t quick, uint64_t thorough) {
 }
 static double now_s(void) { struct timespec ts; clock_gettime(CLOCK_MONOTONIC, &ts); return ts.tv_sec + ts.tv_nsec * 1e-9; }
 
+static long g_case_timeout = 120;
+void pv_case_watchdog(long seconds) {          /* a case that is known to be slow (2^31-byte strings) asks for a longer watchdog for itself */
+    long t = seconds * (pv.tier ? 4 : 1); if (t < g_case_timeout) t = g_case_timeout;
+    alarm((unsigned)t);
+}
 int pv_main(int argc, char** argv, const char* prop, const pv_section* secs, int nsecs, void (*init)(void), void (*fini)(void)) {
     pv.prop = prop;
     const char* only_sec = NULL; uint64_t only_idx = 0; bool have_only = false;
@@ -379,19 +391,23 @@ int pv_main(int argc, char** argv, const char* prop, const pv_section* secs, int
         uint64_t start = 0;
         if (resuming) { start = resume_idx; resuming = false; }
         uint64_t sechash = pv_hash_str(secs[s].name) ^ pv_hash_str(prop);
-        double ts0 = now_s(); uint64_t ran = 0;
+        double ts0 = now_s(); uint64_t ran = 0; double slowest = 0;
         for (uint64_t idx = start; idx < n; ++idx) {
             if (have_only) { if (idx != only_idx) continue; }
             else if ((int)(idx % (uint64_t)pv.nshards) != pv.shard) continue;
             pv_cur.section = secs[s].name; pv_cur.idx = idx; pv_cur.api = NULL; pv_cur.in_ptr = NULL; pv_cur.note = NULL;
             pv_rng rng; pv_rng_seed(&rng, pv.seed, sechash, idx);
+            g_case_timeout = case_timeout;
             alarm((unsigned)case_timeout);
+            double tc0 = now_s();
             secs[s].run(idx, &rng);
             alarm(0);
+            double tc = now_s() - tc0; if (tc > slowest) slowest = tc;
             ++ran;
         }
         pv_countf(ran, "cases.%s", secs[s].name);
         pv_countf((uint64_t)((now_s() - ts0) * 1000), "ms.%s", secs[s].name);
+        pv_maxf((uint64_t)(slowest * 1000), "slowest_case_ms.%s", secs[s].name);        /* against the per-case watchdog */
     }
     pv_cur.section = "fini"; pv_cur.idx = 0; pv_cur.api = NULL;
     if (fini) fini();
